@@ -78,6 +78,21 @@ def const_module(sc):
                 lines.append("  let p%d = c%d + 1" % (i, i))
         if v - 1 >= -(2 ** 63) and (v - 1 >= 0 or v < 2 ** 63):
             lines.append("  let m%d = c%d - 1" % (i, i))
+    # conditional fields that compare tags of several widths with every landmark (the back end turns three or more
+    # `tag == constant` siblings into a switch over the tag's C++ type: constants outside that type must not become labels)
+    for tn, tty, nb in (("Tag8", "UInt", 1), ("Tag32", "UInt", 4), ("TagS32", "Int", 4), ("Tag64", "UInt", 8), ("TagS64", "Int", 8)):
+        lines.append("struct %s:" % tn)
+        lines.append("  0 [+%d]  %s  tag" % (nb, tty))
+        for i, v in enumerate(vals):
+            # the documented 64-bit rule: the operands of one operator must fit one of int64 / uint64 together
+            if tty == "Int" or v < 0:
+                legal = -(2 ** 63) <= v < 2 ** 63 and (tty == "Int" or nb < 8)
+            else:
+                legal = True
+            if not legal:
+                continue
+            lines.append("  if tag == %d:" % v)
+            lines.append("    %d [+1]  UInt  k%d" % (nb, i))
     return "\n".join(lines) + "\n", res, len(vals)
 
 
@@ -401,6 +416,12 @@ def run(chk, only=None):
         f["static_asserts"] += r.get("asserts", 0)
         f["front_end_crashes"] += 1 if r.get("crash") else 0
     chk.extra["families"] = fam
+    # vacuity guard: the landmark module is legal by construction; if the compiler rejects it the family decides nothing
+    for j, r in results:
+        if j[3] == "consts" and not r.get("accepted"):
+            chk.violation("consts:module-rejected", "the landmark-constant module (legal by construction: every constant and every comparison fits "
+                          "one 64-bit type) is rejected by the compiler: %s\n%s" % (r.get("crash") or r.get("error") or "", j[1]["consts.emb"][:3000]),
+                          {"text": j[1]["consts.emb"]})
     for j, r in results[:400:37]:
         chk.sample({"module": j[0], "accepted": bool(r.get("accepted")), "compiles": r.get("compiles", 0),
                     "text_head": ((j[1] or {}).get(j[2]) or "")[:300]})
